@@ -602,6 +602,9 @@ func (f *SQLFormatter) formatJoin(join *ast.JoinClause) error {
 
 // formatExpression formats SQL expressions
 func (f *SQLFormatter) formatExpression(expr ast.Expression) error {
+	if expr == nil {
+		return nil
+	}
 	switch e := expr.(type) {
 	case *ast.Identifier:
 		if e.Table != "" {
@@ -863,8 +866,13 @@ func (f *SQLFormatter) formatExpression(expr ast.Expression) error {
 		// Quote alias if it contains special characters or is a reserved keyword
 		f.formatIdentifier(e.Alias)
 	default:
-		// Fallback for unsupported expressions
-		f.builder.WriteString(expr.TokenLiteral())
+		// Fallback for expression kinds without dedicated formatting: use the
+		// node's own SQL serialisation so that no part of it is lost.
+		if s, ok := expr.(interface{ SQL() string }); ok {
+			f.builder.WriteString(s.SQL())
+		} else {
+			f.builder.WriteString(expr.TokenLiteral())
+		}
 	}
 
 	return nil
